@@ -82,19 +82,19 @@ Example C17_data_ex :
     apply_aff T [2; 0; 1; 1] = Some [0; 0; 2; 1].
 Proof.
   split; [vm_compute; reflexivity|]. do 4 eexists. split; [vm_compute; reflexivity|].
-  split; [vm_compute; reflexivity|]. split; vm_compute; reflexivity.
+  split; [vm_compute; reflexivity|]. split; [vm_compute; reflexivity | vm_compute; reflexivity].
 Qed.
 
 Example C17_affine_ex :
   exists a' A' T o, reorder ex_a ex_A ex_code = Ok (a', A', T, o) /\
     mat_eqb T [[0; 1; 0; 0]; [-1; 0; 0; 2]; [0; 0; -1; 3]; [0; 0; 0; 1]]%Q = true /\
     mat_eqb A' [[0; 0; 4; -7]; [4; 3; 0; -2]; [-3; 4; 0; 13]; [0; 0; 0; 1]]%Q = true.
-Proof. do 4 eexists. split; [vm_compute; reflexivity|]. split; vm_compute; reflexivity. Qed.
+Proof. do 4 eexists. split; [vm_compute; reflexivity|]. split; [vm_compute; reflexivity | vm_compute; reflexivity]. Qed.
 
 Example C17_codes_ex :
   exists a' A' T o, reorder ex_a ex_A ex_code = Ok (a', A', T, o) /\
     aff2axcodes A' = [Some 65; Some 83; Some 82]%N.       (* "ASR" *)
-Proof. do 4 eexists. split; vm_compute; reflexivity. Qed.
+Proof. do 4 eexists. split; [vm_compute; reflexivity | vm_compute; reflexivity]. Qed.
 
 Example C17_axis_aligned_ex : axis_aligned [[0; -2; 0; 1]; [0; 0; 3; 1]; [-5; 0; 0; 1]; [0; 0; 0; 1]]%Q.
 Proof.
@@ -125,7 +125,7 @@ Example C17_codes_48x48 :
      | Ok (_, A', _, _) => opt_str_eqb (aff2axcodes A') c
      | Err _ => false
      end) codes48) signed_perm_affines = true.
-Proof. split; [vm_compute; reflexivity|]. split; vm_compute; reflexivity. Qed.
+Proof. split; [vm_compute; reflexivity|]. split; [vm_compute; reflexivity | vm_compute; reflexivity]. Qed.
 
 Example C17_errors_ex :
   ~ valid_code [76; 76; 65]%N /\ ~ valid_code [82; 65]%N /\ valid_code ex_code /\
@@ -136,5 +136,5 @@ Proof.
   split; [intros H; apply ProofsCode.valid_code_iff in H; vm_compute in H; discriminate|].
   split; [intros H; apply ProofsCode.valid_code_iff in H; vm_compute in H; discriminate|].
   split; [apply ProofsCode.valid_code_iff; vm_compute; reflexivity|].
-  split; [vm_compute; reflexivity|]. split; vm_compute; reflexivity.
+  split; [vm_compute; reflexivity|]. split; [vm_compute; reflexivity | vm_compute; reflexivity].
 Qed.
